@@ -324,40 +324,51 @@ def gen_schema_cases(rng, tier):
     # documents that are not objects
     for v in [Z, B(True), Nn(1), S("x"), A(), A(O(("mode", S("dpdk")))), O()]:
         cases.append(case_of(text(v), "toplevel"))
-    # random combinations: every member independently absent / null / valid / boundary / invalid / wrong
-    n_rand = 500 if tier == "quick" else 8000
-    weights = [("absent", 30), ("valid", 40), ("boundary", 12), ("null", 6), ("invalid", 7), ("wrong", 5)]
+    # random combinations: every member independently absent / null / valid / boundary; 40 % of the documents
+    # then get one or two members spoiled (invalid value or wrong kind)
+    n_rand = 700 if tier == "quick" else 10000
+    weights = [("absent", 38), ("valid", 42), ("boundary", 12), ("null", 8)]
     for _ in range(n_rand):
-        good = rng.random() < 0.6      # mostly loadable documents
         def build(t):
             pairs = []
             for name, ft in t[1]:
                 cls = rng.choices([w[0] for w in weights], [w[1] for w in weights])[0]
-                if good and cls in ("invalid", "wrong"):
-                    cls = "valid"
                 if cls == "absent":
                     continue
-                if ft[0] == "struct" and cls == "valid":
+                if ft[0] == "struct" and cls != "null":
                     v = build(ft)
                 else:
-                    pool = variants(ft, rng).get(cls) or variants(ft, rng)["valid"]
+                    vs = variants(ft, rng)
+                    pool = vs.get(cls) or vs["valid"]
+                    if cls == "boundary" and ft[0] == "uint":      # in-range boundary values only
+                        pool = [Nn(0), Nn((1 << ft[1]) - 1), Nn(1)]
+                    if cls == "boundary" and ft[0] == "str" and ft[1] in ("mode", "cidr", "dur"):
+                        pool = vs["valid"] + [S("")]
                     v = rng.choice(pool)
                 if rng.random() < 0.08:
-                    name = rng.choice([name.upper(), name.capitalize(), name.replace("s", "ſ", 1)])
+                    name = rng.choice([name.upper(), name.capitalize(), name.replace("s", "\u017f", 1)])
                 pairs.append((name, v))
             if rng.random() < 0.3:
                 pairs.append((rng.choice(["workers", "hwcksum", "x", "table_sizes"]), rng.choice([Nn(1), B(False), O(("a", A(Z)))])))
             rng.shuffle(pairs)
             return ("o", pairs)
         tree = build(TOP)
-        if good:
-            p4 = rng.random() < 0.4
+        p4 = rng.random() < 0.4
+        if rng.random() < 0.85:            # make the mode / P4 part consistent most of the time
             tree = set_path(tree, ["enable_p4rt"], B(p4))
             tree = set_path(tree, ["mode"], None, "remove") if p4 else set_path(tree, ["mode"], S(rng.choice(MODES)))
             if p4:
                 tree = set_path(tree, ["p4rtciface", "access_ip"], S(rng.choice(STR_VALUES["cidr"]["valid"])))
                 tree = set_path(tree, ["cpiface", "ue_ip_pool"], S(rng.choice(STR_VALUES["cidr"]["valid"])))
-        cases.append(case_of(text(tree, rng.choice([0, 1, 2])), "random-combination"))
+        cls = "random-combination"
+        if rng.random() < 0.4:
+            for _ in range(rng.choice([1, 1, 2])):
+                path, ft = rng.choice(paths)
+                vs = variants(ft, rng)
+                pool = vs.get("invalid", []) + vs.get("wrong", [])
+                tree = set_path(tree, list(path), rng.choice(pool))
+            cls = "random-combination-spoiled"
+        cases.append(case_of(text(tree, rng.choice([0, 1, 2])), cls))
     return cases
 
 
@@ -757,9 +768,13 @@ def run(tier, seed, replay=None):
         if idx:
             sub = [terms[i] for i in idx]
             sidx = set(coq_eval_shards("C18d", HEADER, sub, shard=260, expr="strip_mismatches cases"))
+            pidx = set(coq_eval_shards("C18d", HEADER, sub, shard=260, expr="spec_failures cases"))
             for j, i in enumerate(idx[:20]):
                 c, d, o = kept[i]
                 what = "comment stripper" if j in sidx else "load"
+                if j in pidx:
+                    ck.fail("spec_ok-false", "the Coq statement of C18_validated is false of the returned configuration",
+                            {"input": dict(c), "document": d.decode("utf-8", "replace"), "impl": {k: v for k, v in o.items() if k in ("conf", "err")}})
                 ck.mismatch(f"model and implementation disagree ({what}) on a {c['cls']} document",
                             {"input": {k: v for k, v in c.items()}, "document": d.decode("utf-8", "replace"),
                              "impl": {k: v for k, v in o.items() if k in ("conf", "err", "stripped")}})
